@@ -1,6 +1,6 @@
 """C06 - answers do not depend on encoding, SAT backend, certificate flag or query order
 (immutability, statelessness, backend abstraction clauses)"""
-from . import statics, satlayer
+from . import statics, satlayer, progress, layout, cli, accept
 
 
 def run(ctx):
@@ -9,12 +9,24 @@ def run(ctx):
     statics.rule_encoder_state_reset(ctx)
     statics.rule_backend_abstraction(ctx)
     satlayer.rule_assumptions_transient(ctx)
+    progress.rule_local_selector_retired(ctx)
+    # per configuration axis, a structural necessary condition of `same status`:
+    # encoding: the three encoders build the reference clause shapes over disjoint variable families, and the CLI picks the encoder of the
+    # base semantics for every --encoding value
+    layout.rule_variable_layout(ctx)
+    layout.rule_clause_templates(ctx)
+    cli.rule_encoder_selection(ctx)
+    # certificate flag: the shortcut taken only without a certificate quantifies over the listed arguments like the full search
+    accept.rule_list_quantifiers(ctx)
+    # back end: the searches constrain the solver only through the split of the current set and the selector (a model-dependent extra
+    # assumption makes the result depend on which model the back end returns first)
+    progress.rule_blocking(ctx)
     ctx.assume("Rust's borrow checker: a `&AAFramework<T>` without interior mutability cannot be modified (witness W1 in the thorough tier)")
     ctx.assume("rustc's type information for field types (deep walk through generic arguments and std containers)")
     return (
         "F10 type-level facts (framework held by shared reference, no cell/atomic/dyn in the store types by a deep type walk, no unsafe), F1 census: "
         "no write to a static solver's fields outside constructors and every SAT solver object comes from the factory call of the current query, "
-        "F4 re-initialisation of the hybrid encoder's cells before any use, who-may-call on back-end specific methods. Decides that querying never "
+        "F4 re-initialisation of the hybrid encoder's cells before any use, who-may-call on back-end specific methods; plus, per configuration axis, the structural rules of C10 (layout, clause templates), C05 (encoder selection), C07 (list quantifiers) and C18 (blocking clauses, retired selectors). Decides that querying never "
         "modifies the framework and that static solvers are stateless across queries; equality of statuses across encodings/back ends is a value clause and is not decided."
     )
 
